@@ -365,3 +365,105 @@ def c02_dataset(seed, tie=False, underscore=False, n_chroms=3, hash_id=False, du
             ds.read_from_exons(nm, c2, t2[0][1], flag=256)
     ds.meta = {"n_unmapped": n_unmapped, "chroms": chroms}
     return ds
+
+
+# ------------------------------------------------------------------------------------------------
+# audit-2 (C02): layouts / inputs the data set above never has.  Lifted from /tmp/audit2-A/probes/C02/p1, p3, p5.
+
+def c02_layout_dataset(seed):
+    """per chromosome: (A) two SAME-strand genes sharing their first two exons (reads compatible with isoforms of both genes:
+    gene-level ambiguity), reads with polyA tails, a read inconsistent with everything; (B) an ANTISENSE pair with partly
+    shared exon coordinates, reads with polyA / polyT tails, reads over the shared intron on either BAM strand, an unspliced
+    read in the shared exon; (C) a mono-exon gene NESTED in an exon of a spliced gene (same strand) and one in its intron
+    (other strand); plus 2 unmapped reads.  Offsets / read numbers from the seed."""
+    import random
+    from gen import synth
+    ds = synth.Dataset(seed)
+    rng = random.Random(seed * 104729 + 7)
+    for c in ("chr1", "chr2"):
+        ds.add_chrom(c, 80000)
+        b = 3000 + rng.randint(0, 400)
+        e = [(b, b + 299), (b + 700, b + 999), (b + 1500, b + 1799), (b + 2400, b + 2699), (b + 3300, b + 3699)]
+        ds.add_gene(c, "GA1_" + c, "+", [("GA1a_" + c, e[:4]), ("GA1b_" + c, [e[0], e[1], e[3]])])
+        ds.add_gene(c, "GA2_" + c, "+", [("GA2a_" + c, [e[0], e[1], e[4]])])
+        for k in range(rng.randint(3, 5)):
+            ds.read_from_exons("A_sh_%s_%d" % (c, k), c, [(e[0][0] + 10 * k, e[0][1]), (e[1][0], e[1][1] - 20)])
+        for k in range(rng.randint(2, 4)):
+            ds.read_from_exons("A_g1_%s_%d" % (c, k), c, e[:4], polya=25 if k else 0)
+            ds.read_from_exons("A_g2_%s_%d" % (c, k), c, [e[0], e[1], e[4]], polya=25 if k else 0)
+        ds.read_from_exons("A_amb1_%s" % c, c, [e[0], e[1]])
+        ds.read_from_exons("A_inc_%s" % c, c, [e[0], e[2], e[4]])
+        b = 20000 + rng.randint(0, 400)
+        p = [(b, b + 299), (b + 800, b + 1099), (b + 1700, b + 2099)]
+        m = [(b + 100, b + 299), (b + 800, b + 1099), (b + 2500, b + 2899)]
+        ds.add_gene(c, "GBp_" + c, "+", [("GBp.t_" + c, p)])
+        ds.add_gene(c, "GBm_" + c, "-", [("GBm.t_" + c, m)])
+        for k in range(3):
+            ds.read_from_exons("B_p_%s_%d" % (c, k), c, p, polya=20)
+            ds.read_from_exons("B_m_%s_%d" % (c, k), c, m, polyt=20)
+        for k in range(3):
+            ds.read_from_exons("B_sh_%s_%d" % (c, k), c, [(b + 150, b + 299), (b + 800, b + 1050)], flag=16 * (k % 2))
+        ds.add_read("B_uns_%s" % c, c, b + 820, "200M")
+        b = 40000 + rng.randint(0, 400)
+        q = [(b, b + 1499), (b + 3000, b + 3399), (b + 5000, b + 5499)]
+        ds.add_gene(c, "GC_" + c, "+", [("GC.t_" + c, q)])
+        ds.add_gene(c, "GCm1_" + c, "+", [("GCm1.t_" + c, [(b + 300, b + 1100)])], plant=False)
+        ds.add_gene(c, "GCm2_" + c, "-", [("GCm2.t_" + c, [(b + 1800, b + 2600)])], plant=False)
+        for k in range(3):
+            ds.read_from_exons("C_fl_%s_%d" % (c, k), c, q)
+            ds.add_read("C_m1_%s_%d" % (c, k), c, b + 320 + k, "700M")
+            ds.add_read("C_m2_%s_%d" % (c, k), c, b + 1820 + k, "700M", flag=16)
+        ds.add_read("C_m1A_%s" % c, c, b + 320, "700M30S")
+    for k in range(2):
+        ds.add_read("unm%d" % k, None, 0, None, flag=4, seq="ACGT" * 25)
+    ds.meta = {"n_unmapped": 2, "chroms": ["chr1", "chr2"]}
+    return ds
+
+
+ZERO_CASES = ("intergenic_only", "unmapped_only", "empty", "one_chr_empty")
+
+
+def c02_zero_dataset(case):
+    """runs whose tables are (nearly) all zero: only intergenic reads / only unmapped reads / an empty BAM / one chromosome
+    without any read"""
+    from gen import synth
+    ds = synth.Dataset(1)
+    ds.add_chrom("chr1", 20000)
+    ds.add_chrom("chr2", 20000)
+    t = [(2001, 2300), (2601, 3000)]
+    ds.add_gene("chr1", "G1", "+", [("T1", t)])
+    ds.add_gene("chr2", "G2", "-", [("T2", t)])
+    n_unm = 0
+    if case == "intergenic_only":
+        for i in range(3):
+            ds.add_read("ig%d" % i, "chr1", 10000 + 500 * i, "300M")
+    elif case == "unmapped_only":
+        for i in range(3):
+            ds.add_read("u%d" % i, None, 0, None, flag=4, seq="ACGT" * 20)
+        n_unm = 3
+    elif case == "one_chr_empty":
+        for i in range(3):
+            ds.read_from_exons("r%d" % i, "chr2", t, flag=16)
+    ds.meta = {"n_unmapped": n_unm, "chroms": ["chr1", "chr2"]}
+    return ds
+
+
+def c02_deep_dataset(seed, times=36):
+    """every primary read of `c02_dataset` `times` times over, plus unspliced reads bridging neighbouring genes: each
+    chromosome becomes ONE read cluster of > 1024 reads that the collector cuts at coverage valleys"""
+    ds = c02_dataset(seed)
+    base = [r for r in ds.reads if not r["flag"] & (4 | 256 | 2048)]
+    extra = []
+    for k in range(times):
+        for r in base:
+            q = dict(r)
+            q["name"] = "%s_x%d" % (r["name"], k)
+            extra.append(q)
+    for c in ds.chroms:
+        p = 1500
+        while p < 50000:
+            extra.append({"name": "br_%s_%d" % (c, p), "chr": c, "start0": p, "cigar": "2500M", "flag": 0, "mapq": 60, "tags": [],
+                          "seq": None})
+            p += 2300
+    ds.reads += extra
+    return ds
